@@ -18,6 +18,13 @@ Second dimension - WHERE THE TREE HANGS and HOW IT CAME TO BE (hang_views): the 
     a Section moved to the front of its parent's list;
   * 'uniform' content: every Section has the same type and the same Property, so that Sections compare equal
     (==) to their parent, to siblings' children and to their clones although they are different objects.
+Third dimension - THE ARGUMENT SPACE OF THE SEARCH FUNCTIONS (run_find_args): find / find_related with every
+combination of key (none, absent, every name of the tree), type request (none, absent, every type as it is / in another
+letter case, each '/'-separated part of it, each leading run of parts), include_subtype, findAll and the four relation
+flags, on trees whose types are nested ('stimulus/white_noise', 'a/b/c'), repeated among siblings and differ in case
+only.  Oracle: result within [required, allowed] - required = same type ignoring case, with include_subtype also a part
+above the last one; allowed additionally the last part / a leading run of parts (not stated, only tolerated); one of
+them is returned if any exists, findAll leaves none of the required ones out.
 A tree without a Document has no absolute paths (the statement speaks of the Sections of a document), therefore
 on such trees only traversals, find/find_related and those relative paths that do not pass the top are judged.
 """
@@ -487,19 +494,56 @@ def check_iter(col, tag, doc, root, nodes, witness, starts=None):
 
 
 def type_allowed(node, qtype, subtype):
-    """Loosest reading of 'satisfies the requested type' (case-insensitive; leading part if subtype)."""
+    """Loosest reading of 'satisfies the requested type': letter case ignored; with include_subtype the requested
+    type may be ANY '/'-separated part of the Section's type or a leading run of parts ('a/b' of 'a/b/c')."""
     if qtype is None:
         return True
     if node.type is None:
         return False
-    if node.type.lower() == qtype.lower():
+    t, q = node.type.lower(), qtype.lower()
+    if t == q:
         return True
-    return subtype and qtype.lower() in node.type.lower().split('/')[:-1]
+    return bool(subtype) and (q in t.split('/') or t.startswith(q + '/'))
 
 
-def type_required(node, qtype):
-    """Strictest reading: identical type string."""
-    return qtype is None or node.type == qtype
+def type_required(node, qtype, subtype=False):
+    """Strictest reading the documentation supports: the same type, letter case ignored ("comparisons are
+    case-insensitive"); with include_subtype also a Section whose type has the requested type as one of its
+    '/'-separated parts above the last one (a super-type: 'stimulus' covers 'stimulus/white_noise').  Whether the LAST
+    part alone ('white_noise') or a run of parts ('a/b' for 'a/b/c') must be found is not stated - only tolerated."""
+    if qtype is None:
+        return True
+    if node.type is None:
+        return False
+    t, q = node.type.lower(), qtype.lower()
+    if t == q:
+        return True
+    return bool(subtype) and q in t.split('/')[:-1]
+
+
+def type_rel(node_type, qtype):
+    """Stable label: how the requested type relates to the type of one Section (failure classes, case classes)."""
+    if qtype is None:
+        return 'type-not-requested'
+    if node_type is None:
+        return 'type-absent'
+    if node_type == qtype:
+        return 'type-identical'
+    t, q = node_type.lower(), qtype.lower()
+    if t == q:
+        return 'type-case-differs'
+    parts = t.split('/')
+    if q in parts:
+        i = parts.index(q)
+        lab = 'type-leading-part' if i == 0 else ('type-last-part' if i == len(parts) - 1 else 'type-inner-part')
+        return lab if qtype in node_type.split('/') else lab + '-case-differs'
+    if t.startswith(q + '/'):
+        return 'type-leading-run-of-parts'
+    return 'type-unrelated'
+
+
+def key_rel(node_name, key):
+    return 'key-not-requested' if key is None else ('key-equal' if node_name == key else 'key-differs')
 
 
 def name_ok(node, key):
@@ -513,31 +557,89 @@ def queries(nodes, rnd=None, limit=None):
     if nodes:
         qs.append((nodes[0].name, nodes[0].type))
         qs.append((nodes[-1].name, nodes[0].type))
+    # key together with a type given as the leading part of a nested type (matters with include_subtype)
+    for n in [x for x in nodes if x.type and '/' in x.type][:2]:
+        pair = (n.name, n.type.split('/')[0])
+        if pair not in qs:
+            qs.append(pair)
     if limit and len(qs) > limit:
         qs = rnd.sample(qs, limit)
     return qs
 
 
+def mixed_case(text):
+    """The same letters in another case, never equal to text if it has a letter."""
+    out = text.swapcase()
+    return out if out != text.upper() or len(text) < 2 else out[0].lower() + out[1:]
+
+
+def type_requests(nodes):
+    """Every way a type can be asked for, derived from the types that occur in the tree: not at all, absent,
+    each type as it is, in another letter case, each '/'-separated part of it (leading, inner, last; as it is and
+    in another case) and each leading run of parts ('a/b' of 'a/b/c')."""
+    out = [None, 'zz']
+    for t in sorted({n.type for n in nodes if n.type is not None}):
+        parts = t.split('/')
+        cand = [t, mixed_case(t)] + parts + [mixed_case(x) for x in parts]
+        cand += ['/'.join(parts[:k]) for k in range(2, len(parts))]
+        for c in cand:
+            if c and c not in out:
+                out.append(c)
+    return out
+
+
+def full_queries(nodes, rnd=None, limit=None):
+    """The full product key x type: key in {None, absent, every name of the tree}."""
+    keys = [None, 'zz'] + sorted({n.name for n in nodes})
+    qs = [(k, t) for k in keys for t in type_requests(nodes)]
+    if limit and len(qs) > limit:
+        qs = rnd.sample(qs, limit)
+    return qs
+
+
+def request_class(cands, key, qtype, subtype):
+    """Class of one request relative to the Sections it is evaluated on (case class key): how the key relates to
+    them and the closest relation of the requested type to the type of one of them."""
+    order = ['type-not-requested', 'type-identical', 'type-case-differs', 'type-leading-part',
+             'type-leading-part-case-differs', 'type-inner-part', 'type-inner-part-case-differs', 'type-last-part',
+             'type-last-part-case-differs', 'type-leading-run-of-parts', 'type-unrelated', 'type-absent']
+    named = [c for c in cands if name_ok(c, key)]
+    rels = {type_rel(c.type, qtype) for c in (named or cands)} or {'no-candidate'}
+    best = [r for r in order if r in rels]
+    return ('no-key' if key is None else ('key-present' if named else 'key-absent'),
+            best[0] if best else 'no-candidate', min(2, len([c for c in named if type_required(c, qtype, subtype)])))
+
+
 @silenced
-def check_find(col, tag, doc, root, nodes, witness, starts=None, rnd=None, qlimit=None):
+def check_find(col, tag, doc, root, nodes, witness, starts=None, rnd=None, qlimit=None, full=False):
+    """full: the whole argument space (key x type request x every flag) instead of the short query list; the
+    failure classes then also tell how key and type of the request relate to the Section concerned."""
     name = col.name
     objmap = {id(n.obj): n for n in [root] + nodes}
+    qlist = None
     for st in (starts if starts is not None else all_starts(root, nodes)):
         is_doc = st.kind()
         skp = '' if is_doc in ('document', 'section') else 'start-%s ' % is_doc
-        for key, qtype in queries(nodes, rnd, qlimit):
+        if qlist is None or qlimit:
+            qlist = full_queries(nodes, rnd, qlimit) if full else queries(nodes, rnd, qlimit)
+        for key, qtype in qlist:
+            q = (key, qtype) if full else None
             # ---------------- find: direct children only
             for find_all in (False, True):
                 for subtype in (False, True):
                     allowed = [c for c in st.children if name_ok(c, key) and type_allowed(c, qtype, subtype)]
-                    required = [c for c in st.children if name_ok(c, key) and type_required(c, qtype)]
+                    required = [c for c in st.children if name_ok(c, key) and type_required(c, qtype, subtype)]
                     kind, got = call(st.obj.find, key=key, type=qtype, findAll=find_all, include_subtype=subtype)
-                    col.case(cls_key=(tag, 'find', is_doc, key is None, qtype is None, find_all, subtype,
-                                      bool(required)))
+                    if full:
+                        col.case(cls_key=(tag, 'find', is_doc, find_all, subtype)
+                                 + request_class(st.children, key, qtype, subtype))
+                    else:
+                        col.case(cls_key=(tag, 'find', is_doc, key is None, qtype is None, find_all, subtype,
+                                          bool(required)))
                     _judge(col, name + '/find', 'find', kind, got, allowed, required, find_all, objmap,
                            lambda: {'doc': witness, 'start': st.label(), 'key': key, 'type': qtype,
                                     'findAll': find_all, 'include_subtype': subtype},
-                           skp + 'findAll-%s subtype-%s' % (find_all, subtype))
+                           skp + 'findAll-%s subtype-%s' % (find_all, subtype), q)
             # ---------------- find_related
             for ch, sib, par, rec, find_all in itertools.product((False, True), repeat=5):
                 allowed, required = [], []
@@ -552,20 +654,37 @@ def check_find(col, tag, doc, root, nodes, witness, starts=None, rnd=None, qlimi
                     rel = [a for a in (st.ancestors() if rec else st.ancestors()[:1])]
                     allowed += rel
                     required += [a for a in rel if not a.is_doc]
-                allowed = [n for n in allowed if not n.is_doc and name_ok(n, key) and type_allowed(n, qtype, False)]
+                related = required
+                # A request without key and type asks for nothing a Document could fail to satisfy: the Document is
+                # tolerated among the parents then (never demanded); with a key or a type it has neither.
+                allowed = [n for n in allowed
+                           if ((key is None and qtype is None) if n.is_doc
+                               else (name_ok(n, key) and type_allowed(n, qtype, False)))]
                 required = [n for n in required if name_ok(n, key) and type_required(n, qtype)]
                 kind, got = call(st.obj.find_related, key=key, type=qtype, children=ch, siblings=sib,
                                    parents=par, recursive=rec, findAll=find_all)
-                col.case(cls_key=(tag, 'find_related', is_doc, key is None, qtype is None, ch, sib, par, rec, find_all,
-                                  bool(required)))
+                if full:
+                    col.case(cls_key=(tag, 'find_related', is_doc, ch, sib, par, rec, find_all)
+                             + request_class(related, key, qtype, False))
+                else:
+                    col.case(cls_key=(tag, 'find_related', is_doc, key is None, qtype is None, ch, sib, par, rec,
+                                      find_all, bool(required)))
                 _judge(col, name + '/find_related', 'find_related', kind, got, allowed, required, find_all, objmap,
                        lambda: {'doc': witness, 'start': st.label(), 'key': key, 'type': qtype, 'children': ch,
                                 'siblings': sib, 'parents': par, 'recursive': rec, 'findAll': find_all},
                        skp + 'children-%s siblings-%s parents-%s recursive-%s findAll-%s'
-                       % (ch, sib, par, rec, find_all))
+                       % (ch, sib, par, rec, find_all), q)
 
 
-def _judge(col, check, fn, kind, got, allowed, required, find_all, objmap, witness_fn, flags):
+def _judge(col, check, fn, kind, got, allowed, required, find_all, objmap, witness_fn, flags, q=None):
+    """q = (key, type) of the request: the failure class then says how they relate to the Section concerned."""
+    def feature(node):
+        if q is None:
+            return flags
+        if node is None:
+            return flags + ' object-outside-the-tree'
+        return '%s %s %s' % (flags, key_rel(node.name, q[0]), type_rel(node.type, q[1]))
+
     if kind == 'exc':
         col.fail(check=check + '-raises', cls={'clause': fn + '-raises', 'feature': flags + ' ' + type(got).__name__},
                  witness=witness_fn(), detail='raised %r' % (got,))
@@ -583,15 +702,24 @@ def _judge(col, check, fn, kind, got, allowed, required, find_all, objmap, witne
     for r in results:
         if not any(r is a.obj for a in allowed):
             m = objmap.get(id(r))
-            col.fail(check=check + '-only-matching', cls={'clause': fn + '-only-matching', 'feature': flags},
+            col.fail(check=check + '-only-matching', cls={'clause': fn + '-only-matching', 'feature': feature(m)},
                      witness=witness_fn(),
                      detail='returned %r (%s) which does not satisfy name/type within the requested relation; '
                             'admissible: %r' % (r, m.label() if m else '?', [a.label() for a in allowed]))
             break
     if required and not results:
-        col.fail(check=check + '-finds-existing', cls={'clause': fn + '-finds-existing', 'feature': flags},
+        col.fail(check=check + '-finds-existing', cls={'clause': fn + '-finds-existing', 'feature': feature(required[0])},
                  witness=witness_fn(),
                  detail='returned nothing although %r satisfy the request' % ([a.label() for a in required],))
+    elif find_all:
+        # findAll: nothing that satisfies the request may be left out
+        missed = [a for a in required if not any(r is a.obj for r in results)]
+        if missed:
+            col.fail(check=check + '-findall-complete',
+                     cls={'clause': fn + '-findall-complete', 'feature': feature(missed[0])},
+                     witness=witness_fn(),
+                     detail='findAll returned %r; %r satisfy the request too and are left out'
+                            % (results, [a.label() for a in missed]))
 
 
 # ---------------------------------------------------------------------------------------------
@@ -922,4 +1050,86 @@ def run_find(tier, seed):
         wit = {'random_tree': [seed, k], 'names': names, 'shape': repr(shape)}
         check_find(col, 'rnd', doc, root, nodes, wit, starts, rnd, 8)
         random_hang(check_find, col, rnd, shape, names, [[] for _ in names], wit, 4, rnd=rnd, qlimit=6)
+    return col.result()
+
+
+# ---------------------------------------------------------------------------------------------
+# the argument space of find / find_related
+# ---------------------------------------------------------------------------------------------
+
+# nested subtypes, the same word as whole type / leading / inner / last part, types that differ in case only
+ARG_TYPES = ['stimulus', 'stimulus/white_noise', 'Stimulus/flash/short', 'STIMULUS', 'a/b/c', 'a/b', 'b', 'c/a']
+ARG_NAMES = ['noise', 'a', 'ab', 'Noise']
+
+
+def arg_names(shape):
+    """The k-th child of every parent is called ARG_NAMES[k]: distinct among siblings, repeated between a Section,
+    its children and its cousins (a key then names several related Sections)."""
+    out = []
+
+    def rec(forest):
+        for k, sub in enumerate(forest):
+            out.append(ARG_NAMES[k % len(ARG_NAMES)] + ('' if k < len(ARG_NAMES) else str(k)))
+            rec(sub)
+    rec(shape)
+    return out
+
+
+def arg_type_assignments(n, tier):
+    """Type of every Section (pre-order).  Up to 2 Sections: every assignment; above: every rotation of the pool
+    walked with step 0 (all Sections have the same type - repeated among siblings), 1 and 3."""
+    pool = ARG_TYPES
+    if n <= (1 if tier == 'quick' else 2):
+        return [list(t) for t in itertools.product(pool, repeat=n)]
+    if n == 2:
+        sub = ['stimulus', 'stimulus/white_noise', 'STIMULUS', 'a/b/c', 'b']
+        return [list(t) for t in itertools.product(sub, repeat=2)]
+    steps = (0, 1) if tier == 'quick' else (0, 1, 3)
+    out = []
+    for step in steps:
+        for off in range(len(pool)):
+            t = [pool[(off + k * step) % len(pool)] for k in range(n)]
+            if t not in out:
+                out.append(t)
+    return out
+
+
+def run_find_args(tier, seed):
+    """find / find_related over their whole argument space, on trees whose types are nested, repeated and differ
+    in case only; Document, Section and parentless-Section start points."""
+    col = Col('C14.find_args',
+              rule='every ordered forest with 1..n Sections (n=3 quick, 4 thorough), the k-th child of every parent '
+                   'named alike, types from %r (every assignment up to 2 Sections, rotations with step 0/1/3 above); '
+                   'from the Document and every Section: find with every key in {None, absent, every name of the tree} '
+                   'x every type request {None, absent, every type as it is / in another letter case, each of its '
+                   "'/'-separated parts as it is / in another case, each leading run of parts} x include_subtype x "
+                   'findAll; find_related with the same key x type x children x siblings x parents x recursive x '
+                   'findAll; the same on the tree built without a Document; plus large random trees (sampled starts '
+                   'and requests); distinct = (start kind, flags, key present/absent/none, closest relation of the '
+                   'requested type to a candidate type, number of Sections that must be found)' % (ARG_TYPES,),
+              exhaustive=True)
+    nmax = 3 if tier == 'quick' else 4
+    for n in range(1, nmax + 1):
+        for shape in h.tree_shapes(n):
+            if count_nodes(shape) != n:
+                continue
+            names = arg_names(shape)
+            for types in arg_type_assignments(n, tier):
+                wit = {'shape': repr(shape), 'names': names, 'types': types}
+                doc, root, nodes = build(shape, names, types=types, props=[[] for _ in names])
+                check_find(col, 'args', doc, root, nodes, wit, full=True)
+                if len(shape) == 1 and n > 1 and (tier != 'quick' or n < 3):
+                    root, nodes = make_model(shape, names, types, [[] for _ in names])
+                    top = root.children[0]
+                    top.parent = None
+                    realize(top)
+                    check_find(col, 'args-alone', top.obj, top, nodes, dict(wit, standalone='topdown'), full=True)
+    rnd = random.Random(seed)
+    for k in range(1 if tier == 'quick' else 6):
+        shape, names = random_tree(rnd, 12 if tier == 'quick' else rnd.choice([30, 60]))
+        types = [rnd.choice(ARG_TYPES) for _ in names]
+        doc, root, nodes = build(shape, names, types=types, props=[[] for _ in names])
+        starts = [root] + rnd.sample(nodes, min(len(nodes), 5))
+        wit = {'random_tree': [seed, k], 'names': names, 'shape': repr(shape), 'types': types}
+        check_find(col, 'args-rnd', doc, root, nodes, wit, starts, rnd, 60, full=True)
     return col.result()
